@@ -410,6 +410,7 @@ func (s *pState) flush(cw *cwriter.Writer, height int, iter <-chan *Bar) error {
 				}
 			} else if s.popCompleted && !frame.noPop {
 				b.priority = s.popPriority
+				b.popping = true
 				s.popPriority++
 				pushBack = append(pushBack, pushData{b, false})
 			} else if !frame.rmOnComplete {
